@@ -304,6 +304,19 @@ def E5(m, R):
             if attr not in (ro.START, ro.STOP, ro.TABLE) or not isinstance(node, ast.Attribute) or id(node) in seen_sites:
                 continue
             seen_sites.add(id(node))
+            if attr == ro.TABLE:
+                # a fresh table filled with another string's points: the two strings share every point (dict(x.TABLE), x.TABLE.copy(), {**x.TABLE})
+                shared = [e for v in vals if is_fresh(v) and not v[1] for e in a.elems.get(v[0], ())
+                          if not is_fresh(e) and e != IMM and e[0] not in ('TUPLE', 'Imm')]
+                if shared:
+                    stn0 = node
+                    while not isinstance(stn0, ast.stmt):
+                        stn0 = stn0._parent
+                    n_sites += 1
+                    R.viol(f, stn0, '%s is a new table but its points are those of %s: a point changed through one string (a marker inserted at an existing '
+                                    'position) changes the other string as well' % (norm(node), _fmt(shared[0])),
+                           construct='%s: %s' % (f.qual, re.sub(r'\s+', ' ', norm(stn0))[:70]))
+                    continue
             if f.name == '__init__' and f.cls in ('AnsiString', ro.ITERATOR):
                 if all(is_fresh(v) or v == IMM for v in vals):
                     continue
